@@ -20,6 +20,7 @@ import (
 	"fmt"
 	"io"
 	"math"
+	"sort"
 	"time"
 
 	"github.com/pkg/errors"
@@ -223,6 +224,17 @@ func (b *backend) GetPartitions(ctx context.Context, r *proto.ListPartitionReque
 	if err != nil {
 		klog.Errorf("backend getPartitions %v return err %v", r, err)
 		return nil, err
+	}
+	// advertise the partitions in key order and with the same borders the scanner works on: a border falling among
+	// the versions of a raw key is moved to its revision key, so that each raw key belongs to exactly one partition
+	sort.Slice(partitions, func(i, j int) bool {
+		return bytes.Compare(partitions[i].Start, partitions[j].Start) < 0
+	})
+	for idx := 0; idx < len(partitions)-1; idx++ {
+		if userKey, revision, decodeErr := b.coder.Decode(partitions[idx].End); decodeErr == nil && revision != 0 {
+			partitions[idx].End = b.coder.EncodeRevisionKey(userKey)
+		}
+		partitions[idx+1].Start = partitions[idx].End
 	}
 	resp = &proto.ListPartitionResponse{
 		Header:       responseHeader(rev),
